@@ -23,6 +23,31 @@ def run(tier, seed):
         hc.count(("inject_after_calls", min(k, 8)))
         if len(hc.v.violations) > 3:
             break
+    # the re-sent Metadata PDU is the ORIGINAL one, byte for byte, also for the options the model does not interpret
+    from harness.transfer import Cfg
+    for i in range(12 if tier == "quick" else 300):
+        rng = hc.rng
+        opts = {}
+        if rng.random() < 0.8:
+            opts["fs"] = rng.choice([1, 2])
+        if rng.random() < 0.5:
+            opts["fh"] = 1
+        if rng.random() < 0.5:
+            opts["flow"] = 1
+        if rng.random() < 0.7:
+            opts["msgs"] = [0] * rng.choice([1, 2])
+        seg, size = rng.choice([2, 4]), rng.choice([5, 9])
+        cfg = Cfg(mode=0, max_seg=seg, max_packet=200, ack_limit=5)
+        naks = sorted(rng.sample(range(1, 9), rng.choice([1, 2, 3])))
+        mds = srcprops.metadata_resend_case(cfg, bytes(range(size)), opts, naks)
+        hc.judged += 1
+        hc.count(("md_resend", tuple(sorted(opts)), len(naks)))
+        if mds is not None and len(set(mds)) > 1:
+            hc.world_violation(f"C08 the Metadata PDU re-sent for a (0,0) request is not the original one: lengths "
+                               f"{[len(m) for m in mds]} (options {opts}, NAKs after calls {naks})",
+                               {"md_resend": True, "opts": opts, "naks": naks, "seg": seg, "size": size, "mds": [m.hex() for m in mds]}, [])
+        if mds is not None and len(mds) < 2:
+            hc.count(("md_resend", "no re-send"))
     hc.correspondence(project=hcommon.proj_pdus_exc, theorem="c08_retransmission / c08_segment_req_* (correspondence source)")
     return hc.finish("NAK PDUs (single requests: every (start,end) in 0..size+2 for sizes 0/3/9, double and random multi-request "
                      "NAKs) injected after every number of calls of an acknowledged transfer, then run on; distinct = "
@@ -31,6 +56,16 @@ def run(tier, seed):
 
 def replay(path):
     d = json.loads(open(path).read())
+    c = d.get("case") or {}
+    if c.get("md_resend"):
+        from harness.transfer import Cfg
+        mds = srcprops.metadata_resend_case(Cfg(mode=0, max_seg=c["seg"], max_packet=200, ack_limit=5), bytes(range(c["size"])),
+                                            c["opts"], c["naks"])
+        if mds is not None and len(set(mds)) > 1:
+            print(f"VIOLATION property={PROP} replay={path}")
+            print("  re-sent Metadata PDU differs from the original: lengths", [len(m) for m in mds])
+            return 1
+        return 0
     obs, _ = transfer.replay_ops(d["kind"], d["ops"])
     try:
         srcprops.oracle_c08(hcommon.Trace(d["kind"], d["ops"], obs))
